@@ -173,7 +173,7 @@ func TestVerifC19Exporter(t *testing.T) {
 			var cs *c03Case
 			if c < len(corpus) {
 				cs = corpus[c]
-			} else {
+			} else if cs = c03Systematic(c, len(corpus), 25); cs == nil {
 				cs = c03Gen(c)
 			}
 			tel := componenttest.NewTelemetry()
